@@ -1290,7 +1290,9 @@ def _run_chunk(ctx, res, cases, offset, ncorpus, shrunk):
                     small, strace, sbad = case, trace, bad
                 else:
                     sbad = sigs[sig]
-                what = f'{kind}: after {json.dumps(small["ops"][:sbad])} the recorded values are ' \
+                layout = f' (classes in MRO order, [min, max, limits declared, own check method, mixin]: ' \
+                         f'{json.dumps(limits_case(small)["layers"])})' if kind == 'limits' else ''
+                what = f'{kind}{layout}: after {json.dumps(small["ops"][:sbad])} the recorded values are ' \
                        f'{json.dumps({k: v for k, v in strace[sbad].items() if k != "evs"})}'
                 res.violations.append({'sig': sig, 'what': what, 'case': small,
                                        'detail': {'first_bad_index': sbad, 'original_ops': case['ops']}})
